@@ -90,7 +90,8 @@ THEOREMS = [
     ("pair_history_answered",
      "forall (checked : bool) (ops : list pkg_op) (alt : option bytes) (e416 : resp), "
      "Forall (fun o => hop (pkg_op_name o) = false) ops -> forall (secure1 : bool) (exs : list exch), "
-     "Forall (fun e => (pr_no_request_body (ex_method e) = true -> ex_blen e = 0) /\\ N.of_nat (length (rs_body (ex_l4 e))) <= u64_max) exs -> "
+     "Forall (fun e => (pr_no_request_body (ex_method e) = true -> ex_blen e = 0) /\\ N.of_nat (length (rs_body (ex_l4 e))) <= u64_max /\\ "
+     "fut_framed (ex_l4 e) (ex_fut e)) exs -> "
      "forallb is_resp (pair_hist checked ops alt e416 H1 true secure1 exs) = true /\\ "
      "forallb is_resp (pair_hist checked ops alt e416 H2 true true exs) = true /\\ "
      "map (option_map onorm) (pair_hist checked ops alt e416 H1 true secure1 exs) = "
@@ -103,6 +104,54 @@ THEOREMS = [
     ("undeclared_request_body_refuted",
      "exists checked ops alt e416 exs, forallb is_resp (pair_hist checked ops alt e416 H1 true true exs) = false /\\ "
      "forallb is_resp (pair_hist checked ops alt e416 H2 true true exs) = true"),
+    ("pkg_menu_keeps_content_length",
+     "forall ops : list pkg_op, Forall (fun o => hop (pkg_op_name o) = false) ops -> pkg_keeps_length (pkg_menu ops)"),
+    ("send_is_pipe_send",
+     "forall (checked : bool) (error_page : N -> resp) (pkg : N -> headers -> headers) (head_future : bool) (p : proto) (secure : bool) "
+     "(alt : option bytes) (m : N) (sd : outcome (option (N * N))) (r : resp), pkg_keeps_length pkg -> "
+     "send_pipe checked error_page pkg head_future p secure alt m sd r None = send checked error_page pkg p secure alt m sd r"),
+    ("streamed_answer",
+     "forall (checked : bool) (error_page : N -> resp) (pkg : N -> headers -> headers) (p : proto) (secure : bool) (alt : option bytes) "
+     "(m : N) (sd : outcome (option (N * N))) (r : resp) (cs : list bytes) (ol : option N), "
+     "pkg_keeps_length pkg -> fut_framed r (Some (cs, ol)) -> "
+     "exists (v : N) (h : headers), send_pipe checked error_page pkg false p secure alt m sd r (Some (cs, ol)) "
+     "= Ok (WResp (mkResp v (rs_status r) h (if m =? M_HEAD then [] else rs_body r ++ concat cs))) "
+     "/\\ v = ensure_version p (rs_version r) "
+     "/\\ strip h = strip (pkg v (match ol with Some n => ensure_length p n (rs_headers (add_alt_svc secure alt r)) "
+     "| None => rs_headers (add_alt_svc secure alt r) end))"),
+    ("stream_parity",
+     "forall (checked : bool) (error_page : N -> resp) (pkg : N -> headers -> headers) (secure1 : bool) (alt : option bytes) (m : N) "
+     "(sd : outcome (option (N * N))) (r : resp) (f : option (list bytes * option N)), "
+     "pkg_oblivious pkg -> pkg_keeps_length pkg -> fut_framed r f -> "
+     "onorm (send_pipe checked error_page pkg false H1 secure1 alt m sd r f) = onorm (send_pipe checked error_page pkg false H2 true alt m sd r f)"),
+    ("head_stream_v0_refuted",
+     "exists (r : resp) (cs : list bytes) (n : N), fut_framed r (Some (cs, Some n)) /\\ "
+     "send_pipe false (fun _ => r) (fun _ h => h) true H1 true None M_HEAD (Ok None) r (Some (cs, Some n)) = Ok WBroken /\\ "
+     "send_pipe false (fun _ => r) (fun _ h => h) true H2 true None M_HEAD (Ok None) r (Some (cs, Some n)) = Ok WBroken /\\ "
+     "(exists w1 w2, send_pipe false (fun _ => r) (fun _ h => h) false H1 true None M_HEAD (Ok None) r (Some (cs, Some n)) = Ok (WResp w1) /\\ "
+     "send_pipe false (fun _ => r) (fun _ h => h) false H2 true None M_HEAD (Ok None) r (Some (cs, Some n)) = Ok (WResp w2) /\\ "
+     "rs_body w1 = [] /\\ rs_body w2 = [])"),
+    ("limiter_answer_parity",
+     "forall (m : N) (r : resp), onorm (send_direct H1 m r) = onorm (send_direct H2 m r) /\\ "
+     "forall p : proto, exists h : headers, send_direct p m r = "
+     "Ok (WResp (mkResp (ensure_version p (rs_version r)) (rs_status r) h (if m =? M_HEAD then [] else rs_body r))) "
+     "/\\ strip h = strip (rs_headers r)"),
+    ("connection_headers_filter_total",
+     "forall h : headers, h2_refuses (h2_strip h) = false /\\ strip (h2_strip h) = strip h"),
+    ("read_to_bytes_parity",
+     "forall (body early conn : bytes) (frames : list bytes) (max_len : N), early ++ conn = body -> concat frames = body -> "
+     "fst (h1_read_to_bytes (mkH1B early conn (N.of_nat (length body))) max_len) = firstn (N.to_nat max_len) body /\\ "
+     "fst (h2_read_to_bytes frames max_len) = firstn (N.to_nat max_len) body"),
+    ("second_read_refuted",
+     "exists (body early conn : bytes) (frames : list bytes) (l1 l2 : N), early ++ conn = body /\\ concat frames = body /\\ "
+     "h1_reads (mkH1B early conn (N.of_nat (length body))) [l1; l2] <> h2_reads frames [l1; l2]"),
+    ("stream_body_framed",
+     "forall (file : bytes) (a c : N), "
+     "match stream_plan true file (Some (a, c)) with Some (b, n) => n = N.of_nat (length b) | None => True end /\\ "
+     "match stream_plan true file None with Some (b, n) => n = N.of_nat (length b) /\\ b = file | None => False end"),
+    ("stream_body_v0_refuted",
+     "exists (file : bytes) (a c : N), a < c /\\ "
+     "match stream_plan false file (Some (a, c)) with Some (b, n) => n <> N.of_nat (length b) | None => False end"),
 ]
 
 RULE = ("Real kvarn::handle_connection on loopback TCP pairs, TLS by a rustls ServerConfig from HostCollection::make_config (ALPN from "
